@@ -41,10 +41,18 @@ SUB = [
     "echo␣a:=b", "echo␣'a'␣'b'", "echo␣x.y␣z", "echo␣[a]␣b", "echo␣a/b/c", "echo␣@(['a',·'b'])", "echo␣@(x␣if␣y␣else␣z)", "xonsh␣-c␣'echo  1'", "echo␣$(ls␣\\\n    -l)",
     "echo␣a␣||␣\\\n  echo␣b", "sed␣--in-place␣s/a/b/␣f", "rsync␣--exclude-from=skip.lst␣a␣b", "make␣--with-ssl␣--without-x", "git␣checkout␣for-review", "echo␣not-x␣is-y␣if=a␣or-b",
     "dd␣if=/dev/zero␣of=out␣bs=1", "echo␣a\\\nb", "echo␣--long-\\\noption␣x", "echo␣$(echo␣a,b)␣x:y", "ls␣/tmp␣-5", "du␣-h␣/␣x", "echo␣@(x)=y", "echo␣$(ls)/sub", "tar␣--exclude=*.pyc␣-cf␣a.tar␣.", "echo␣class-a␣def-b␣import-c␣return=1", "x·=·$(echo␣a␣b).strip()", "echo␣@(f'{a}  b')", "echo␣a␣2>␣/dev/null", "echo␣-", "echo␣=", "echo␣a␣=␣b",
+    "ls␣-1␣--color=auto", "ls␣-1␣a=b␣c,d", "head␣-5␣f.txt␣k:v", "$HOME/bin/x␣a,b␣--k=v", "$HOME/bin/x", "x·=·1;␣echo␣a=b␣c,d", "x·=·1;␣ls␣-l␣k:v;␣y·=·2", "print(1);␣echo␣a==b", "x·=·1;␣echo!␣a   b",
+    "x·=·1;␣$HOME/bin/x␣a=b", "ls␣-1", "cmd␣-2␣-x␣a!=b",
 ]
-MACRO = ["with!␣ctx():\n    raw   body  text\n    more   raw , x", "echo!␣a   b  c", "echo!·x", "f!(a   b,  c)", "timeit!␣ls   -l", "bash␣-c␣!␣echo   a  b", "f!(x  +  y)", "g!(  'a  b'  )", "echo!␣--k = v  # not a comment?", "x·=·f!(a  ,b)", "h!([1,  2],   {3:  4})"]
+MACRO = ["with!␣ctx():\n    raw   body  text\n    more   raw , x", "echo!␣a   b  c", "echo!·x", "f!(a   b,  c)", "timeit!␣ls   -l", "bash␣-c␣!␣echo   a  b", "f!(x  +  y)", "g!(  'a  b'  )", "echo!␣--k = v  # not a comment?", "x·=·f!(a  ,b)", "h!([1,  2],   {3:  4})",
+         "r·=·f!(g!(a  b)  c)", "f!(g!(a , b)  ,c ,  h!( d ))", "echo!␣a␣\\\n   b", "echo!␣a␣\\\n         b   c", "r·=·f!(a␣\\\n      b)", "x·=·1;␣echo!␣a   b  ,c"]
 COMMENTS = ["#·c", "#c", "#def foo():", "#  indented   text", "#!shebang", "# trailing   ", "#"]
 INLINE = ["··#·inline", "·#inline", "␣#  spaced   out", "··#"]
+
+RAW_ATOMS = ["x", "1", "+", ",", "'a  b'", '"""a\n  b"""', "'''p\nq'''", "(y  z)", "g!(u  v)", "\\\n", "$X", "@(k)", "[1,  2]", "{3:  4}", "a=b", "-k", "not", "k:v", "# why\n", "#y\n"]
+RAW_FN = ["r = f!(«»)", "r = g(f!(«»), 1)", "f!(«»)", "x = 1; r = f!(«»)"]
+RAW_ALIAS = ["echo! «»", "timeit! «»", "bash -c ! «»", "x = 1; echo! «»"]
+LINEEND_TEMPLATES = ["s = 'a«»b'", "s = '''one«»two'''   ", "s = '''l1\nl2«»l3\n'''", "x = 1  # c«»d", "# only«»comment", "echo 'a«»b' c", "s = f'{x}«»y'", "def f():\n    s = '''p«»q'''   \n    return s  # e«»f", "s = b'a«»b'"]
 
 GAPS = {
     "compact": {O: "", R: " "},
@@ -219,6 +227,34 @@ def universe(tier, rng, streams):
     add("", set())
     add("\n", set())
     add("   \n\t\n", set())
+    # U6: raw regions - the text between `f!(` and its `)`, and after `name!`, is an argument taken
+    # verbatim: every blank in it counts.  Atoms that have made formatters slip (comments, multi-line
+    # strings not starting in column 0, continuations, nested macros, punctuation) in every order,
+    # separated by gaps of 0-3 blanks, in function-macro and alias-macro containers at two depths.
+    for srng in streams:
+        for k in range(260):
+            fn = k % 2 == 0
+            atoms = [srng.choice(RAW_ATOMS) for _ in range(srng.randint(2, 4))]
+            if not fn:
+                atoms = [a for a in atoms if not a.startswith("#")] or ["x"]
+            body = ""
+            for a in atoms:
+                body += a + srng.choice(["", " ", "  ", "   "])
+            if not fn:
+                body = body.rstrip(" ")
+                if body.endswith("\\\n") or not body:
+                    body += "z"
+            cont = srng.choice(RAW_FN if fn else RAW_ALIAS).replace("«»", body)
+            if srng.random() < 0.4:
+                cont = "if a:\n" + indent_block(cont, srng.choice(["    ", "  ", "\t"]), 1)
+            add(cont + "\n", {"macro"})
+    # U7: characters that some line-splitting routines take for line ends (form feed, vertical tab,
+    # FS/GS/RS, NEL, LINE/PARAGRAPH SEPARATOR) inside string literals, comments and command words
+    for ch in ("\x0c", "\x0b", "\x1c", "\x1d", "\x1e", "\x85", "\u2028", "\u2029"):
+        for t in LINEEND_TEMPLATES:
+            if "b'" in t and ord(ch) > 127:
+                continue
+            add(t.replace("«»", ch) + "\n", {"py"})
     seen, uniq = set(), []
     for s in scns:
         if s["src"] not in seen:
